@@ -968,9 +968,11 @@ def fam_resample(rng, tier, i):
     tss = [t for t, _ in lines]
     n = len(tss)
     s = [new_line("n", p)] + push_lines(lines)
-    for lo, hi in bounds_critical(rng, tss, 8):
+    for k2, (lo, hi) in enumerate(bounds_critical(rng, tss, 8)):
+        if k2 % 2 == 0:
+            s.append("read_all %s %s" % (lo, hi))       # the full read of the same range: C10 is stated against it
         s.append("read_n %d %s %s" % (rng.choice([1, 2, 3, n, n + 1, 2 * n, 10**6]), lo, hi))
-    s += ["read_n 1 u u", "read_n 2 u u", "read_n %d u u" % max(1, n // 2)]
+    s += ["read_all u u", "read_n 1 u u", "read_n 2 u u", "read_n %d u u" % max(1, n // 2)]
     return {"family": "resample", "lines": s, "tags": {"p%d" % p} | ({"bigts"} if big else set())}
 
 _PREAMBLE_PARTS = None
